@@ -49,9 +49,9 @@ def arch_info(architecture):
 
 def single_configs(ctx):
     out = []
-    insts = [("single", 3, 1)] if ctx.quick else [("single", 3, 1), (1, "single", 7), ("single", 1, "single")]
+    insts = [("single", 3, 1), (1, "single", 7)] if ctx.quick else [("single", 3, 1), (1, "single", 7), ("single", 1, "single"), (2, "single", "single")]
     base = hw.configs(True, maxb=2)
-    stride = 6 if ctx.quick else 2
+    stride = 9 if ctx.quick else 2
     for k, (tag, spec, exts, labels) in enumerate(base[::stride]):
         for i, inst in enumerate(insts):
             s = copy.deepcopy(spec)
